@@ -64,6 +64,7 @@ type wcfg struct {
 	NoClobber bool
 	FmtOpt    any
 	Ser       *native.SerializeOptions
+	Backend   any // StoreOptions.BackendOptions
 }
 type rcfg struct {
 	FmtOpt any
@@ -75,11 +76,16 @@ type winst struct {
 	w    *writer.Writer
 	rec  *recorder
 	want wcfg
+	// instances built by a value-corner constructor: the step that built them and what they looked like at birth
+	corner string
+	born   wcfg
 }
 type rinst struct {
-	r    *reader.Reader
-	rec  *recorder
-	want rcfg
+	r      *reader.Reader
+	rec    *recorder
+	want   rcfg
+	corner string
+	born   rcfg
 }
 
 type world struct {
@@ -127,6 +133,11 @@ func ropts() []ropt {
 type step struct {
 	Name string
 	Do   func(w *world) string // returns a violation text or ""
+	// Corner: a constructor called with an unusual option value (nil, zero, negative, huge, empty, unknown). What such an
+	// instance must look like is not modelled: its configuration as observed right after construction is its own, two
+	// instances built the same way must look the same, and from then on the instance is held to it like any other.
+	Corner bool
+	Ctor   bool
 }
 
 func testDoc() *sbom.Document {
@@ -152,7 +163,7 @@ func steps(thorough bool) []step {
 				names = append(names, wo[i].Name)
 			}
 		}
-		out = append(out, step{"writer.New(" + strings.Join(names, ",") + ")", func(w *world) string {
+		out = append(out, step{Ctor: true, Name: "writer.New(" + strings.Join(names, ",") + ")", Do: func(w *world) string {
 			rec := &recorder{}
 			opts := []writer.WriterOption{writer.WithStoreRetriever(rec)}
 			want := wcfg{Indent: 4}
@@ -173,7 +184,7 @@ func steps(thorough bool) []step {
 				names = append(names, ro[i].Name)
 			}
 		}
-		out = append(out, step{"reader.New(" + strings.Join(names, ",") + ")", func(w *world) string {
+		out = append(out, step{Ctor: true, Name: "reader.New(" + strings.Join(names, ",") + ")", Do: func(w *world) string {
 			rec := &recorder{}
 			opts := []reader.ReaderOption{reader.WithStoreRetriever(rec)}
 			want := rcfg{}
@@ -206,7 +217,7 @@ func steps(thorough bool) []step {
 		}
 	}
 	// per-call override on the most recent writer: must not persist
-	out = append(out, step{"last-writer.WriteStreamWithOptions(override cdx13/indent7)", func(w *world) string {
+	out = append(out, step{Name: "last-writer.WriteStreamWithOptions(override cdx13/indent7)", Do: func(w *world) string {
 		if len(w.ws) == 0 {
 			return ""
 		}
@@ -224,7 +235,7 @@ func steps(thorough bool) []step {
 		return ""
 	}})
 	// per-call options that belong to someone else: the first writer's Options object, and a shared value used with two writers
-	out = append(out, step{"last-writer.WriteFileWithOptions(first-writer.Options)", func(w *world) string {
+	out = append(out, step{Name: "last-writer.WriteFileWithOptions(first-writer.Options)", Do: func(w *world) string {
 		if len(w.ws) < 2 {
 			return ""
 		}
@@ -234,7 +245,7 @@ func steps(thorough bool) []step {
 		_ = last.w.WriteFileWithOptions(testDoc(), f, first.w.Options) // may fail when neither has a format; configuration must stay put either way
 		return ""
 	}})
-	out = append(out, step{"all-writers.WriteFileWithOptions(one shared per-call value without format)", func(w *world) string {
+	out = append(out, step{Name: "all-writers.WriteFileWithOptions(one shared per-call value without format)", Do: func(w *world) string {
 		if len(w.ws) == 0 {
 			return ""
 		}
@@ -262,7 +273,7 @@ func steps(thorough bool) []step {
 		}
 		return ""
 	}})
-	out = append(out, step{"last-writer.WriteFile", func(w *world) string {
+	out = append(out, step{Name: "last-writer.WriteFile", Do: func(w *world) string {
 		if len(w.ws) == 0 {
 			return ""
 		}
@@ -285,7 +296,7 @@ func steps(thorough bool) []step {
 		}
 		return ""
 	}})
-	out = append(out, step{"last-reader.ParseFileWithOptions(first-reader.Options)", func(w *world) string {
+	out = append(out, step{Name: "last-reader.ParseFileWithOptions(first-reader.Options)", Do: func(w *world) string {
 		if len(w.rs) < 2 {
 			return ""
 		}
@@ -305,7 +316,7 @@ func steps(thorough bool) []step {
 		}
 		return ""
 	}})
-	out = append(out, step{"last-writer.WriteStream", func(w *world) string {
+	out = append(out, step{Name: "last-writer.WriteStream", Do: func(w *world) string {
 		if len(w.ws) == 0 {
 			return ""
 		}
@@ -335,7 +346,7 @@ func steps(thorough bool) []step {
 		}
 		return ""
 	}})
-	out = append(out, step{"last-writer.Store through a real file-system backend", func(w *world) string {
+	out = append(out, step{Name: "last-writer.Store through a real file-system backend", Do: func(w *world) string {
 		if len(w.ws) == 0 {
 			return ""
 		}
@@ -353,7 +364,7 @@ func steps(thorough bool) []step {
 		}
 		return ""
 	}})
-	out = append(out, step{"last-writer.Store", func(w *world) string {
+	out = append(out, step{Name: "last-writer.Store", Do: func(w *world) string {
 		if len(w.ws) == 0 {
 			return ""
 		}
@@ -372,7 +383,7 @@ func steps(thorough bool) []step {
 		}
 		return ""
 	}})
-	out = append(out, step{"last-reader.ParseStreamWithOptions(override format)", func(w *world) string {
+	out = append(out, step{Name: "last-reader.ParseStreamWithOptions(override format)", Do: func(w *world) string {
 		if len(w.rs) == 0 {
 			return ""
 		}
@@ -387,7 +398,7 @@ func steps(thorough bool) []step {
 		}
 		return ""
 	}})
-	out = append(out, step{"last-reader.ParseStreamWithOptions(per-call format options)", func(w *world) string {
+	out = append(out, step{Name: "last-reader.ParseStreamWithOptions(per-call format options)", Do: func(w *world) string {
 		if len(w.rs) == 0 {
 			return ""
 		}
@@ -417,7 +428,7 @@ func steps(thorough bool) []step {
 	}})
 	// two instances built from one option list with spare capacity: a prefix of it, then all of it (a constructor that
 	// appends to the slice it was handed writes into the caller's list)
-	out = append(out, step{"two writers from one option list (prefix, then all)", func(w *world) string {
+	out = append(out, step{Name: "two writers from one option list (prefix, then all)", Do: func(w *world) string {
 		rec1, rec2 := &recorder{}, &recorder{}
 		all := make([]writer.WriterOption, 0, 8)
 		all = append(all, writer.WithStoreRetriever(rec1), writer.WithFormat(formats.SPDX23JSON), writer.WithRenderOptions(&native.RenderOptions{Indent: 1}), writer.WithFormat(formats.CDX15JSON), writer.WithStoreOptions(&storage.StoreOptions{NoClobber: true}))
@@ -428,7 +439,7 @@ func steps(thorough bool) []step {
 		w.ws = append(w.ws, &winst{w: w2, rec: rec2, want: wcfg{Format: formats.CDX15JSON, Indent: 1, NoClobber: true}})
 		return ""
 	}})
-	out = append(out, step{"two readers from one option list (prefix, then all)", func(w *world) string {
+	out = append(out, step{Name: "two readers from one option list (prefix, then all)", Do: func(w *world) string {
 		rec1, rec2 := &recorder{}, &recorder{}
 		all := make([]reader.ReaderOption, 0, 8)
 		all = append(all, reader.WithStoreRetriever(rec1), reader.WithFormatOptions("k", "v"), reader.WithRetrieveOptions(ro1))
@@ -440,7 +451,7 @@ func steps(thorough bool) []step {
 		return ""
 	}})
 	// configuring an instance after construction through its exported Options value: only that instance changes
-	out = append(out, step{"last-writer.Options.RenderOptions.Indent = 9 (in place)", func(w *world) string {
+	out = append(out, step{Name: "last-writer.Options.RenderOptions.Indent = 9 (in place)", Do: func(w *world) string {
 		if len(w.ws) == 0 {
 			return ""
 		}
@@ -452,7 +463,7 @@ func steps(thorough bool) []step {
 		i.want.Indent = 9
 		return ""
 	}})
-	out = append(out, step{"last-writer.Options.StoreOptions.NoClobber = true (in place)", func(w *world) string {
+	out = append(out, step{Name: "last-writer.Options.StoreOptions.NoClobber = true (in place)", Do: func(w *world) string {
 		if len(w.ws) == 0 {
 			return ""
 		}
@@ -464,7 +475,7 @@ func steps(thorough bool) []step {
 		i.want.NoClobber = true
 		return ""
 	}})
-	out = append(out, step{"last-writer.Options.Format = cdx14 (in place)", func(w *world) string {
+	out = append(out, step{Name: "last-writer.Options.Format = cdx14 (in place)", Do: func(w *world) string {
 		if len(w.ws) == 0 {
 			return ""
 		}
@@ -482,7 +493,7 @@ func steps(thorough bool) []step {
 	missing := func() string {
 		return filepath.Join(os.Getenv("MCVERIF_SCRATCH"), fmt.Sprintf("c18-%d-no-such-dir", os.Getpid()), "no-such-file")
 	}
-	out = append(out, step{"last-reader.ParseFileWithOptions(per-call options) on a missing file [fails]", func(w *world) string {
+	out = append(out, step{Name: "last-reader.ParseFileWithOptions(per-call options) on a missing file [fails]", Do: func(w *world) string {
 		if len(w.rs) == 0 {
 			return ""
 		}
@@ -491,7 +502,7 @@ func steps(thorough bool) []step {
 		}
 		return ""
 	}})
-	out = append(out, step{"last-reader.ParseFileWithOptions(first-reader.Options) on an undetectable file [fails]", func(w *world) string {
+	out = append(out, step{Name: "last-reader.ParseFileWithOptions(first-reader.Options) on an undetectable file [fails]", Do: func(w *world) string {
 		if len(w.rs) < 2 {
 			return ""
 		}
@@ -504,7 +515,7 @@ func steps(thorough bool) []step {
 		}
 		return ""
 	}})
-	out = append(out, step{"last-reader.ParseFile on a missing file [fails]", func(w *world) string {
+	out = append(out, step{Name: "last-reader.ParseFile on a missing file [fails]", Do: func(w *world) string {
 		if len(w.rs) == 0 {
 			return ""
 		}
@@ -513,7 +524,7 @@ func steps(thorough bool) []step {
 		}
 		return ""
 	}})
-	out = append(out, step{"last-reader.ParseStreamWithOptions(per-call options, unregistered format) [fails]", func(w *world) string {
+	out = append(out, step{Name: "last-reader.ParseStreamWithOptions(per-call options, unregistered format) [fails]", Do: func(w *world) string {
 		if len(w.rs) == 0 {
 			return ""
 		}
@@ -524,7 +535,7 @@ func steps(thorough bool) []step {
 		}
 		return ""
 	}})
-	out = append(out, step{"last-writer.WriteFileWithOptions(per-call options) into a missing directory [fails]", func(w *world) string {
+	out = append(out, step{Name: "last-writer.WriteFileWithOptions(per-call options) into a missing directory [fails]", Do: func(w *world) string {
 		if len(w.ws) == 0 {
 			return ""
 		}
@@ -536,7 +547,7 @@ func steps(thorough bool) []step {
 		}
 		return ""
 	}})
-	out = append(out, step{"last-writer.WriteStreamWithOptions(per-call options, unregistered format) [fails]", func(w *world) string {
+	out = append(out, step{Name: "last-writer.WriteStreamWithOptions(per-call options, unregistered format) [fails]", Do: func(w *world) string {
 		if len(w.ws) == 0 {
 			return ""
 		}
@@ -548,7 +559,7 @@ func steps(thorough bool) []step {
 		}
 		return ""
 	}})
-	out = append(out, step{"last-reader.Retrieve", func(w *world) string {
+	out = append(out, step{Name: "last-reader.Retrieve", Do: func(w *world) string {
 		if len(w.rs) == 0 {
 			return ""
 		}
@@ -561,6 +572,80 @@ func steps(thorough bool) []step {
 		}
 		return ""
 	}})
+
+	// value corners: constructors called with unusual option values
+	cornerW := func(name string, mk func() []writer.WriterOption) {
+		out = append(out, step{Corner: true, Ctor: true, Name: "writer.New(" + name + ")", Do: func(w *world) string {
+			rec := &recorder{}
+			wr := writer.New(append([]writer.WriterOption{writer.WithStoreRetriever(rec)}, mk()...)...)
+			o := wr.Options
+			if o == nil || o.RenderOptions == nil || o.StoreOptions == nil || o.SerializeOptions == nil {
+				return fmt.Sprintf("writer.New(%s) yields an instance with missing option structs: %+v", name, o)
+			}
+			got := wcfg{Format: o.Format, Indent: o.RenderOptions.Indent, NoClobber: o.StoreOptions.NoClobber, FmtOpt: o.GetFormatOptions("k"), Backend: o.StoreOptions.BackendOptions}
+			for _, e := range w.ws {
+				if e.corner == name && e.born != got {
+					return fmt.Sprintf("two writers built by writer.New(%s) differ at birth: %+v then %+v (the configuration is not a function of the defaults and the instance's own options)", name, e.born, got)
+				}
+			}
+			w.ws = append(w.ws, &winst{w: wr, rec: rec, want: got, corner: name, born: got})
+			return ""
+		}})
+	}
+	cornerW("Render(nil)", func() []writer.WriterOption { return []writer.WriterOption{writer.WithRenderOptions(nil)} })
+	cornerW("Render(indent 0)", func() []writer.WriterOption {
+		return []writer.WriterOption{writer.WithRenderOptions(&native.RenderOptions{Indent: 0})}
+	})
+	cornerW("Render(indent -1)", func() []writer.WriterOption {
+		return []writer.WriterOption{writer.WithRenderOptions(&native.RenderOptions{Indent: -1})}
+	})
+	cornerW("Render(indent 1<<20)", func() []writer.WriterOption {
+		return []writer.WriterOption{writer.WithRenderOptions(&native.RenderOptions{Indent: 1 << 20})}
+	})
+	cornerW("Render(indent 2),Render(indent -3)", func() []writer.WriterOption {
+		return []writer.WriterOption{writer.WithRenderOptions(&native.RenderOptions{Indent: 2}), writer.WithRenderOptions(&native.RenderOptions{Indent: -3})}
+	})
+	cornerW("Format(empty)", func() []writer.WriterOption { return []writer.WriterOption{writer.WithFormat("")} })
+	cornerW("Format(spdx23),Format(empty)", func() []writer.WriterOption {
+		return []writer.WriterOption{writer.WithFormat(formats.SPDX23JSON), writer.WithFormat("")}
+	})
+	cornerW("FormatOptions(k=nil)", func() []writer.WriterOption { return []writer.WriterOption{writer.WithFormatOptions("k", nil)} })
+	cornerW("FormatOptions(empty key)", func() []writer.WriterOption { return []writer.WriterOption{writer.WithFormatOptions("", "v")} })
+	cornerW("Store(nil)", func() []writer.WriterOption { return []writer.WriterOption{writer.WithStoreOptions(nil)} })
+	cornerW("Store(zero value)", func() []writer.WriterOption {
+		return []writer.WriterOption{writer.WithStoreOptions(&storage.StoreOptions{})}
+	})
+	cornerW("Store(backend options only)", func() []writer.WriterOption {
+		return []writer.WriterOption{writer.WithStoreOptions(&storage.StoreOptions{BackendOptions: "b"})}
+	})
+	cornerW("Serialize(nil)", func() []writer.WriterOption { return []writer.WriterOption{writer.WithSerializeOptions(nil)} })
+	cornerW("StoreRetriever(nil)", func() []writer.WriterOption { return []writer.WriterOption{writer.WithStoreRetriever(nil)} })
+	cornerR := func(name string, mk func() []reader.ReaderOption) {
+		out = append(out, step{Corner: true, Ctor: true, Name: "reader.New(" + name + ")", Do: func(w *world) string {
+			rec := &recorder{}
+			rd := reader.New(append([]reader.ReaderOption{reader.WithStoreRetriever(rec)}, mk()...)...)
+			o := rd.Options
+			if o == nil || o.UnserializeOptions == nil {
+				return fmt.Sprintf("reader.New(%s) yields an instance with missing option structs: %+v", name, o)
+			}
+			got := rcfg{FmtOpt: o.GetFormatOptions("k"), Ret: o.RetrieveOptions}
+			for _, e := range w.rs {
+				if e.corner == name && (e.born.FmtOpt != got.FmtOpt || (e.born.Ret == nil) != (got.Ret == nil)) {
+					return fmt.Sprintf("two readers built by reader.New(%s) differ at birth: %+v then %+v", name, e.born, got)
+				}
+			}
+			w.rs = append(w.rs, &rinst{r: rd, rec: rec, want: got, corner: name, born: got})
+			return ""
+		}})
+	}
+	cornerR("FormatOptions(k=nil)", func() []reader.ReaderOption { return []reader.ReaderOption{reader.WithFormatOptions("k", nil)} })
+	cornerR("FormatOptions(empty key)", func() []reader.ReaderOption { return []reader.ReaderOption{reader.WithFormatOptions("", "v")} })
+	cornerR("Unserialize(nil)", func() []reader.ReaderOption { return []reader.ReaderOption{reader.WithUnserializeOptions(nil)} })
+	cornerR("Retrieve(nil)", func() []reader.ReaderOption { return []reader.ReaderOption{reader.WithRetrieveOptions(nil)} })
+	cornerR("Retrieve(zero value)", func() []reader.ReaderOption {
+		return []reader.ReaderOption{reader.WithRetrieveOptions(&storage.RetrieveOptions{})}
+	})
+	cornerR("StoreRetriever(nil)", func() []reader.ReaderOption { return []reader.ReaderOption{reader.WithStoreRetriever(nil)} })
 	return out
 }
 
@@ -587,8 +672,8 @@ func observe(w *world) string {
 		if o.StoreOptions == nil || o.StoreOptions.NoClobber != i.want.NoClobber {
 			return fmt.Sprintf("writer #%d: StoreOptions=%+v, want NoClobber=%v", k, o.StoreOptions, i.want.NoClobber)
 		}
-		if o.StoreOptions.BackendOptions != nil {
-			return fmt.Sprintf("writer #%d: StoreOptions.BackendOptions=%v, want nil (no constructor option set it)", k, o.StoreOptions.BackendOptions)
+		if o.StoreOptions.BackendOptions != i.want.Backend {
+			return fmt.Sprintf("writer #%d: StoreOptions.BackendOptions=%v, want %v (own constructor options over defaults)", k, o.StoreOptions.BackendOptions, i.want.Backend)
 		}
 		if got := o.GetFormatOptions("k"); got != i.want.FmtOpt {
 			return fmt.Sprintf("writer #%d: format options[k]=%v, want %v", k, got, i.want.FmtOpt)
@@ -640,6 +725,30 @@ func Aux(args []string) int {
 	return 0
 }
 
+func runHistory(t *engine.T, self, tier string, h []int) *engine.Violation {
+	args := []string{"--aux", "c18hist", tier}
+	for _, i := range h {
+		args = append(args, fmt.Sprint(i))
+	}
+	out, err := exec.Command(self, args...).CombinedOutput()
+	t.Transitions(len(h))
+	t.Validated(len(h))
+	res := strings.TrimSpace(string(out))
+	if err != nil {
+		return engine.Violate("process-abort", "", "history aborted the process: %v\n%s", err, firstN(res, 1500))
+	}
+	if strings.HasPrefix(res, "VIOLATION|") {
+		p := strings.SplitN(res, "|", 3)
+		return &engine.Violation{Clause: p[1], Detail: p[2]}
+	}
+	if res != "OK" {
+		return engine.Violate("harness", "", "unexpected child output: %s", firstN(res, 500))
+	}
+	t.State(fmt.Sprint(h))
+	t.Outcome(fmt.Sprintf("ok-len%d", len(h)))
+	return nil
+}
+
 func Run(c *engine.Ctx) {
 	all := steps(c.Thorough())
 	depth := 3
@@ -657,37 +766,57 @@ func Run(c *engine.Ctx) {
 					names = append(names, all[i].Name)
 				}
 				return names
-			}, func(t *engine.T) *engine.Violation {
-				args := []string{"--aux", "c18hist", tier}
-				for _, i := range h {
-					args = append(args, fmt.Sprint(i))
-				}
-				out, err := exec.Command(self, args...).CombinedOutput()
-				t.Transitions(len(h))
-				t.Validated(len(h))
-				res := strings.TrimSpace(string(out))
-				if err != nil {
-					return engine.Violate("process-abort", "", "history aborted the process: %v\n%s", err, firstN(res, 1500))
-				}
-				if strings.HasPrefix(res, "VIOLATION|") {
-					p := strings.SplitN(res, "|", 3)
-					return &engine.Violation{Clause: p[1], Detail: p[2]}
-				}
-				if res != "OK" {
-					return engine.Violate("harness", "", "unexpected child output: %s", firstN(res, 500))
-				}
-				t.State(fmt.Sprint(h))
-				t.Outcome(fmt.Sprintf("ok-len%d", len(h)))
-				return nil
-			})
+			}, func(t *engine.T) *engine.Violation { return runHistory(t, self, tier, h) })
 		}
 		if len(cur) == depth || c.Expired() {
 			return
 		}
 		for i := range all {
-			// call steps need an instance of their kind
+			if all[i].Corner {
+				continue // explored by the value-corners group below
+			}
 			rec(append(cur, i))
 		}
 	}
 	rec(nil)
+
+	// value corners: X = a constructor with an unusual option value, E = any step, Y = any constructor (X again included)
+	c.Group("value-corners")
+	nCorner, nCtor, lastW, lastR := 0, 5, -1, -1
+	for i, s := range all {
+		if s.Corner {
+			nCorner++
+		}
+		if s.Ctor && !s.Corner && strings.HasPrefix(s.Name, "writer.New(") {
+			lastW = i
+		}
+		if s.Ctor && !s.Corner && strings.HasPrefix(s.Name, "reader.New(") {
+			lastR = i
+		}
+	}
+	c.Bound("value-corners", fmt.Sprintf("every history [X, E, Y] and [X, Y] with X one of %d constructors called with an unusual option value (nil, zero, negative, huge, empty, unregistered, the same option twice), E any of the %d steps, Y one of %d constructors (without options, with the most options, X again); an instance's configuration as observed at birth is its own (two instances built the same way must agree), every later step is judged as in the histories group", nCorner, len(all), nCtor))
+	run := func(h []int) {
+		c.Case(func() any {
+			var names []string
+			for _, i := range h {
+				names = append(names, all[i].Name)
+			}
+			return names
+		}, func(t *engine.T) *engine.Violation { return runHistory(t, self, tier, h) })
+	}
+	for x := range all {
+		if !all[x].Corner || c.Expired() {
+			continue
+		}
+		for y := range all {
+			// Y: the constructors without options, X again, and the constructors with the most options
+			if !(y == x || all[y].Name == "writer.New()" || all[y].Name == "reader.New()" || y == lastW || y == lastR) {
+				continue
+			}
+			run([]int{x, y})
+			for e := range all {
+				run([]int{x, e, y})
+			}
+		}
+	}
 }
